@@ -2,6 +2,7 @@ package main
 
 import (
 	"encoding/binary"
+	"fmt"
 	"math"
 	"math/big"
 	"strconv"
@@ -150,6 +151,65 @@ func init() {
 			if k%4 == 0 {
 				c05Global("rnd-global", d, pick(r, []int{0, 0, 0, -1, 1}), r.u64(), r.u64(), nil)
 			}
+		}
+	}
+
+	// c05-errpath: a die is a fresh draw also after a FAILED evaluation. The draws an evaluation consumed stay consumed when it
+	// ends in a run-time error (its dice may already have escaped into variables), whichever entry point ran it: on VM A a statement
+	// rolls a 10^9-sided die into `a`, then fails; on VM B (same generator state) the same roll succeeds; the next die must be the
+	// same on both (it is the next draw of the same stream), `a` must be the same, and the generator states must agree
+	cmds["c05-errpath"] = func(args []string) {
+		fs, seed, n := stdFlags("c05-errpath")
+		fs.Parse(args)
+		r := newRng(*seed)
+		fails := []string{"a = d1000000000; a / 0", "a = d1000000000; a + 'x'", "a = d1000000000; [1][5]", "a = [d1000000000, 2d1000000000][0]; nosuch()",
+			"a = d1000000000; func g() { d1000000000 / 0 }; g()", "a = d1000000000; &cv = d1000000000 + 'x'; cv", "a = d1000000000; `{% 1/0 %}`"}
+		for k := 0; k < *n; k++ {
+			hi, lo := r.u64(), r.u64()
+			stmt := fails[k%len(fails)]
+			entry := []string{"Run", "RunExpr-up", "RunExpr"}[(k/len(fails))%3]
+			mk := func() *ds.Context {
+				c := allOn()
+				c.OpLimit = 100000
+				return newVM(c, hi, lo, true)
+			}
+			row := map[string]any{"stmt": stmt, "entry": entry, "hi": u(hi), "lo": u(lo)}
+			func() {
+				defer func() {
+					if rc := recover(); rc != nil {
+						row["panic"] = fmt.Sprint(rc)
+					}
+				}()
+				a := mk()
+				var err error
+				switch entry {
+				case "Run":
+					err = a.Run(stmt)
+				case "RunExpr-up":
+					_, err = a.RunExpr(stmt, true)
+				default:
+					_, err = a.RunExpr(stmt, false)
+				}
+				row["failed"] = err != nil
+				ah, al := srcState(a.RandSrc)
+				next := runScript(a, "d1000000000", false)
+				av, _ := a.Attrs.Load("a")
+				// reference: the first roll alone, successfully, from the same state
+				b := mk()
+				first := runScript(b, "d1000000000", false)
+				row["first_ref"], row["next"] = first.Str, next.Str
+				ref := []string{first.Str}
+				for j := 0; j < 4; j++ {
+					ref = append(ref, runScript(b, "d1000000000", false).Str)
+				}
+				row["ref_stream"] = ref // successive 10^9-sided dice from the start state
+				if av != nil {
+					row["a"] = av.ToString()
+				}
+				row["state_after_failure"] = []string{u(ah), u(al)}
+				row["state_start"] = []string{u(hi), u(lo)}
+			}()
+			emit(row)
 		}
 	}
 
